@@ -75,6 +75,29 @@ pub fn parse_rev0(text: &str) -> Rev0 {
     r
 }
 
+/// the same request the way a shell makes it: the marker `--bpaf-complete-rev=N` is an item of
+/// the command line
+pub fn complete_via_marker(
+    parser: &bpaf::OptionParser<V>,
+    argv: &[Vec<u8>],
+    rev: usize,
+    name: Option<&str>,
+    fuel: u64,
+) -> Outcome {
+    let mut with_marker = vec![format!("--bpaf-complete-rev={}", rev).into_bytes()];
+    with_marker.extend(argv.iter().cloned());
+    run_full(
+        parser,
+        &with_marker,
+        &RunOpts {
+            name: name.map(str::to_string),
+            comp: None,
+            fuel,
+        },
+    )
+    .0
+}
+
 pub fn complete(
     parser: &bpaf::OptionParser<V>,
     argv: &[Vec<u8>],
